@@ -558,13 +558,25 @@ def merge_alignment(ck, w, rid_a, rid_b):
                 if vs != {variant}:
                     problems.append("ordering %s builds %s instead of %s" % ({255: "Less", 0: "Equal", 1: "Greater"}[val], sorted(vs), variant))
                     continue
-                # which peeked entries are consumed
+                # which peeked entries are consumed: taken in this arm, or taken by value before the comparison (every path to the
+                # switch passes the take) and not put back in this arm (`self.next_b = Some(b)`)
                 took = set()
                 for e in mn.events:
-                    if e.bb in region and e.name in ("std::option::Option::<T>::take", "std::mem::take", "std::mem::replace") and mn.must_pass_edges({(sb, tgt)}, e.bb):
+                    if e.bb not in mn.live or e.name not in ("std::option::Option::<T>::take", "std::mem::take", "std::mem::replace"):
+                        continue
+                    in_arm = e.bb in region and mn.must_pass_edges({(sb, tgt)}, e.bb)
+                    before = e.bb != sb and mn.must_pass_nodes({e.bb}, sb) and e.bb not in mn.reachable(sb)
+                    if in_arm or before:
                         for x in flow.origins_x(lib, mn, e.args[0]):
                             if x[0] in ("param", "upvar"):
                                 took |= {f for f in x[2] if f in ("next_a", "next_b")}
+                for bb_, j_, st_ in mn.all_assigns():
+                    if bb_ in region and mn.must_pass_edges({(sb, tgt)}, bb_) and st_["pl"]["p"]:
+                        fld_ = [x_.split(":", 2)[2] for x_ in st_["pl"]["p"] if x_.startswith("f:")]
+                        if fld_ and fld_[-1] in ("next_a", "next_b") and not (st_["rv"]["rk"] == "agg" and st_["rv"].get("variant") == "None"):
+                            vo_ = flow.origins_x(lib, mn, st_["rv"]["ops"][0]) if st_["rv"].get("ops") and st_["rv"]["ops"][0].get("k") != "const" else set()
+                            if not any(x_[0] == "enum" and x_[2] == "None" for x_ in vo_):
+                                took.discard(fld_[-1])
                 if took != takes:
                     problems.append("ordering %s consumes %s instead of %s" % ({255: "Less", 0: "Equal", 1: "Greater"}[val], sorted(took), sorted(takes)))
                 for bb, s in aggs:
